@@ -572,12 +572,17 @@ pub fn check_main(engine: &dyn Engine, tier: Tier) -> i32 {
     let mut harness_errors: Vec<String> = Vec::new();
     let mut abort_cases: Vec<Case> = Vec::new();
     // blocks still to do: (start, count)
-    let per = (runs + workers - 1) / workers;
-    let mut pending: Vec<(u64, u64)> = (0..workers).map(|w| (w * per, per.min(runs.saturating_sub(w * per)))).filter(|b| b.1 > 0).collect();
+    // the runs are cut into chunks (8 per worker slot), one process each, `workers` at a time: a
+    // worker that dies costs one chunk, not a sixteenth of the whole exploration
+    let nchunks = (workers * 8).min(runs.max(1));
+    let per = (runs + nchunks - 1) / nchunks;
+    let mut pending: Vec<(u64, u64)> = (0..nchunks).map(|w| (w * per, per.min(runs.saturating_sub(w * per)))).filter(|b| b.1 > 0).collect();
+    pending.reverse();
     let mut relaunches = 0;
     while !pending.is_empty() {
-        let children: Vec<Child> = pending.iter().map(|(s, c)| spawn_worker(prop, tier, seed, *s, *c, &dir, "A", &["--recheck-every".into(), recheck_every.to_string()])).collect();
-        pending.clear();
+        let take = pending.len().min(workers as usize);
+        let wave: Vec<(u64, u64)> = pending.split_off(pending.len() - take);
+        let children: Vec<Child> = wave.iter().map(|(s, c)| spawn_worker(prop, tier, seed, *s, *c, &dir, "A", &["--recheck-every".into(), recheck_every.to_string()])).collect();
         for c in children {
             let (start, count) = (c.start, c.count);
             let out = match c.child.wait_with_output() {
@@ -623,7 +628,7 @@ pub fn check_main(engine: &dyn Engine, tier: Tier) -> i32 {
                     }
                     // the runs before `run` are re-done together with the rest (results of the dead worker are lost)
                     relaunches += 1;
-                    if relaunches <= 40 && abort_cases.len() < 3 {
+                    if relaunches <= 600 && t0.elapsed().as_secs() < 240 && abort_cases.len() < 3 {
                         if run > start {
                             pending.push((start, run - start));
                         }
